@@ -51,7 +51,7 @@ class BudgetExceeded(BaseException):
 
 
 WORK = [0]
-WORK_CAP = 1000000
+WORK_CAP = 600000
 
 
 def canon(x):
